@@ -118,9 +118,12 @@ META = {
              "(every leaf path x rejected value types x 5 routes x 5 formats).",
              "ref_path arithmetic on strings is bounded", "exception-class obligations on the setter chain"),
     "C16": M("other",
-             "Proved: Config._get_value / BaseField.__getval__ return the stored value of the named field and are read-only. Enumeration, dotted-path lookup, the generated "
-             "argument parser and cmdline_args_override are decided by the bounded driver (schemas depth <= 3, all command lines incl. the empty one, ignore lists).",
-             "argparse is external", "bounded run-time contract checking"),
+             "Proved (48 obligations): Config._get_value / BaseField.__getval__ / Config.__getitem__ return the stored value of the named field (plain key = attribute access, "
+             "dotted path = chained access) and are read-only; Config.__setitem__ with a plain key is exactly attribute assignment (every clause of _set_value) and with a dotted "
+             "path assigns in the sub-configuration and leaves its own level alone; cmdline_args_override leaves the parsed arguments untouched, normalises a single ignore name to a "
+             "list and changes nothing when no option was supplied (loop invariant). Bounded, not proved: field enumeration (get_all_fields: recursive list of tuples), the generated "
+             "argument parser, and which options an override applies - decided by the driver (schemas depth <= 3, all command lines incl. the empty one, ignore lists, 28k cases).",
+             "argparse is external; enumeration builds nested tuples outside the encoding", "contracts discharged by z3/cvc5 + bounded run-time contract checking"),
     "C17": M("other",
              "Proved for all states and arguments (50 obligations): ListProxy.append, insert, index assignment, extend, +=, +, copy and construction (from nothing, a list or a "
              "tuple) and DictProxy item assignment and setdefault behave like the built-in over the normalised items - length, order, untouched prefix, position of the new items, "
